@@ -267,8 +267,15 @@ class Builtins:
         if isinstance(v, VGen) and v.kind == "emptydict":
             return v
         if isinstance(v, SV) and isinstance(v.ty, TDict):
+            if v.ty.default_list:
+                return SV(TDict(v.ty.k, v.ty.v, v.ty.ordered), v.term)
             return SV(v.ty, v.term)  # a copy: value semantics
         return self.cdb.externals.dict_from_pairs(it, v, fr)
+
+    def b_defaultdict(self, it, args, kwargs, fr):
+        if len(args) == 1 and isinstance(args[0], VBuiltin) and args[0].name == "list":
+            return VGen("emptydefaultdict")
+        raise Unsupported("defaultdict with a factory other than list")
 
     def b_set(self, it, args, kwargs, fr):
         if not args:
@@ -391,6 +398,12 @@ class Builtins:
                 return self.cdb.externals.str_method(it, recv, name, args, kwargs, fr)
             if isinstance(t, TSet):
                 return self.set_method(it, recv, name, args, kwargs, fr, node)
+        if isinstance(recv, VGen) and recv.kind == "rematch":
+            if name == "groups":
+                return PyTuple(recv.groups)
+            if name == "group":
+                i = z3.simplify(args[0].term).as_long()
+                return recv.groups[i - 1]
         if isinstance(recv, VGen) and recv.kind == "emptydict":
             if name in ("items", "keys", "values"):
                 return PyList([])
@@ -502,6 +515,11 @@ class Builtins:
 
     # ------------------------------------------------------------------ literals fixed to a declared type
     def literal_as(self, it, v, ty: Ty, fr):
+        if isinstance(v, VGen) and v.kind == "emptydefaultdict":
+            t = ty.inner if isinstance(ty, TOpt) else ty
+            if isinstance(t, TDict) and isinstance(t.v, TSeq):
+                return it.empty_dict(TDict(t.k, t.v, t.ordered, default_list=True))
+            raise Unsupported("defaultdict(list) needs a dict[..., list[...]] annotation")
         if isinstance(v, VGen) and v.kind == "emptydict":
             t = ty.inner if isinstance(ty, TOpt) else ty
             if isinstance(t, TDict):
@@ -565,7 +583,7 @@ class Builtins:
         return SV(TSeq(d.ty.k), ks)
 
     # ------------------------------------------------------------------ comprehensions
-    def list_comp(self, it, node, fr, want_bool=False) -> SV:
+    def list_comp(self, it, node, fr, want_bool=False, spec_mode=False) -> SV:
         if len(node.generators) != 1:
             raise Unsupported("nested comprehension")
         gen = node.generators[0]
@@ -641,12 +659,23 @@ class Builtins:
         guard = z3.And(i >= 0, i < n)
         it.pure_ctx.append(([i], guard))
         it.binder_stack.append([])
+        collect = [] if not (fr.pure or spec_mode) else None
+        saved_collect = getattr(it, "raise_collect", None)
+        it.raise_collect = collect
         try:
             it.assign(gen.target, elem_at(i), nfr)
             ev = it.eval(node.elt, nfr)
         finally:
             it.pure_ctx.pop()
             facts = it.binder_stack.pop()
+            it.raise_collect = saved_collect
+        if collect:
+            # an element whose evaluation raises makes the whole comprehension raise (first one)
+            for (exc_name, cond, con) in collect:
+                some = z3.Exists([i], z3.And(guard, cond))
+                if it.branch(some):
+                    from .interp import RaiseSig
+                    raise RaiseSig(self.cdb.mk_exc(it, exc_name, con))
         if facts:
             # facts established about the generic element hold for every index in range
             it.assume(z3.ForAll([i], z3.Implies(guard, z3.And(facts))))
@@ -688,25 +717,37 @@ class Builtins:
         if not (isinstance(srcv, VGen) and srcv.kind == "dictitems"):
             raise Unsupported("dict comprehension source")
         d = srcv.d
+        dom = d.ty.dom(d.term)
+
+        def elem(kc):
+            """key / value expressions on a generic source key (pure); facts are returned separately"""
+            nfr = self._child_frame(fr, pure=True)
+            nfr.pure_code = True
+            guard = z3.Select(dom, kc)
+            it.pure_ctx.append(([kc], guard))
+            it.binder_stack.append([])
+            try:
+                it.assign(gen.target, PyTuple([SV(d.ty.k, kc), it.assume_wf(SV(d.ty.v, z3.Select(d.ty.val(d.term), kc)))]), nfr)
+                ke = it.eval(node.key, nfr)
+                ve = it.eval(node.value, nfr)
+            finally:
+                it.pure_ctx.pop()
+                facts = it.binder_stack.pop()
+            return ke, ve, facts
         k = it.bound("dk", d.ty.k.sort())
-        nfr = self._child_frame(fr, pure=True)
-        it.assign(gen.target, PyTuple([SV(d.ty.k, k), SV(d.ty.v, z3.Select(d.ty.val(d.term), k))]), nfr)
-        ke = it.eval(node.key, nfr)
-        ve = it.eval(node.value, nfr)
+        ke, ve, facts = elem(k)
+        if facts:
+            it.assume(z3.ForAll([k], z3.Implies(z3.Select(dom, k), z3.And(facts))))
         rt = TDict(ke.ty, ve.ty)
         r = it.fresh("dcomp", rt.sort())
         x = it.bound("dx", ke.ty.sort())
-        dom = d.ty.dom(d.term)
         # every source item contributes its key; the stored value comes from *some* source item
         # with that key (Python: the last one in iteration order)
         k2 = it.bound("dk2", d.ty.k.sort())
-        nfr2 = self._child_frame(fr, pure=True)
-        it.assign(gen.target, PyTuple([SV(d.ty.k, k2), SV(d.ty.v, z3.Select(d.ty.val(d.term), k2))]), nfr2)
-        ke2 = it.eval(node.key, nfr2)
-        ve2 = it.eval(node.value, nfr2)
+        ke2, ve2, facts2 = elem(k2)
         it.assume(z3.ForAll([k], z3.Implies(z3.Select(dom, k), z3.Select(rt.dom(r), ke.term))))
         it.assume(z3.ForAll([x], z3.Implies(z3.Select(rt.dom(r), x),
-                                            z3.Exists([k2], z3.And(z3.Select(dom, k2), ke2.term == x, z3.Select(rt.val(r), x) == ve2.term)))))
+                                            z3.Exists([k2], z3.And(z3.Select(dom, k2), ke2.term == x, z3.Select(rt.val(r), x) == ve2.term, *facts2)))))
         return SV(rt, r)
 
     # ------------------------------------------------------------------ match statement
